@@ -216,6 +216,33 @@ Section EqComplete.
     - apply (same_matrix_incl n s1 s2); assumption.
     - apply (same_matrix_incl n s2 s1); try assumption. apply mat_eq_sym. exact M.
   Qed.
+
+  (* ... and so does a simplified sum against the plain number it denotes (code after fix F33) *)
+  Variable is_zero : K -> bool.
+  Hypothesis is_zero_zero : is_zero c0 = true.
+
+  Theorem sum_number_eq_complete n (s : psum K) (c : K) : sum_ok n s -> distinct_ops s ->
+    Forall (fun t => coef t <> c0) s -> mat_eq (2 ^ n) (sden n s) (nden c) ->
+    py_eq is_zero keqb (OS s) (ON c) = true /\ py_eq is_zero keqb (ON c) (OS s) = true.
+  Proof.
+    intros O D Z M. assert (G : sum_term_eqb is_zero keqb s (const c) = true); [|split; exact G].
+    destruct s as [|t s'].
+    - cbn [sum_term_eqb const coef]. pose proof (M 0%nat 0%nat (pow2_pos n) (pow2_pos n)) as E.
+      unfold sden, nden, mscale, eye in E. cbn [lsum Nat.eqb] in E.
+      replace c with (@c0 K); [exact is_zero_zero|]. rewrite E. ring.
+    - cbn [sum_term_eqb].
+      assert (M' : mat_eq (2 ^ n) (sden n (t :: s')) (sden n [const c])).
+      { eapply mat_eq_trans; [exact M|]. apply mat_eq_sym.
+        eapply mat_eq_trans; [apply sden_single_eq|apply den_const]. }
+      apply (sum_eqb_complete n); try assumption.
+      + apply single_ok. apply const_ok.
+      + unfold distinct_ops. cbn [map]. constructor; [intros []|constructor].
+      + constructor; [|constructor]. cbn [const coef]. intro Hc. subst c.
+        assert (M0 : mat_eq (2 ^ n) (sden n (t :: s')) (sden n [])).
+        { intros i j Hi Hj. rewrite (M i j Hi Hj). unfold nden, mscale, sden. cbn [lsum]. ring. }
+        pose proof (sum_eqb_complete n (t :: s') [] O (Forall_nil _) D (NoDup_nil _) Z (Forall_nil _) M0) as F.
+        unfold sum_eqb in F. cbn [List.length Nat.eqb andb] in F. discriminate.
+  Qed.
 End EqComplete.
 
 (* the executable instance: 2 is cancellable in the Gaussian rationals *)
